@@ -1,16 +1,227 @@
 package main
 
 import (
+	"encoding/json"
 	"fmt"
 	"os"
+	"os/exec"
 	"path/filepath"
 	"regexp"
+	"sort"
+	"strconv"
 	"strings"
+	"time"
+
+	"golang.org/x/tools/go/ssa"
 )
 
+type selfSpec struct {
+	pkg, dir string
+	files    []string
+}
+
+var selfSpecs = []selfSpec{
+	{"github.com/lesismal/nbio/mempool", "mempool", []string{"selftest/zz_verif_self_lang.go"}},
+	{"github.com/lesismal/nbio/nbhttp", "nbhttp", []string{"nbhttp/zz_verif_http.go", "nbhttp/zz_verif_c06.go", "nbhttp/zz_verif_c07.go", "selftest/zz_verif_self_http.go"}},
+	{"github.com/lesismal/nbio/nbhttp/websocket", "nbhttp/websocket", []string{"websocket/zz_verif_ws.go", "selftest/zz_verif_self_ws.go"}},
+}
+
+var dataLitRe = regexp.MustCompile(`(?m)^\s*data :?= \[\]byte\(("(?:[^"\\]|\\.)*")\)`)
+var testFuncRe = regexp.MustCompile(`(?m)^func (Test\w+)\(`)
+
+// parserTestInputs extracts the messages of nbhttp/parser_test.go.
+func parserTestInputs() (lits []string, client []bool) {
+	src, err := os.ReadFile(filepath.Join(repoDir, "nbhttp", "parser_test.go"))
+	if err != nil {
+		return nil, nil
+	}
+	txt := string(src)
+	// positions of test functions
+	type fpos struct {
+		pos  int
+		name string
+	}
+	var fns []fpos
+	for _, m := range testFuncRe.FindAllStringSubmatchIndex(txt, -1) {
+		fns = append(fns, fpos{m[0], txt[m[2]:m[3]]})
+	}
+	for _, m := range dataLitRe.FindAllStringSubmatchIndex(txt, -1) {
+		lit := txt[m[2]:m[3]]
+		name := ""
+		for _, f := range fns {
+			if f.pos < m[0] {
+				name = f.name
+			}
+		}
+		lits = append(lits, lit)
+		client = append(client, strings.Contains(name, "Client"))
+	}
+	return
+}
+
+// cmdSelftest: translator validation. Concrete programs (interpreter
+// conformance corpus, the repository's own test inputs, std helpers on seeded
+// inputs) are run under gosym and natively and must give identical results;
+// the C07 message model is validated natively against net/http.
 func cmdSelftest(args []string) int {
-	fmt.Println("selftest: TODO")
+	t0 := time.Now()
+	work := filepath.Join(verifDir, "work", "selftest")
+	os.RemoveAll(work)
+	os.MkdirAll(work, 0o755)
+	defer os.RemoveAll(work)
+	cfg := &runConfig{workers: 1, maxSteps: 200_000_000, solverBin: "z3", timeoutMs: 30000, maxSplit: 600}
+	bad := 0
+	total := 0
+	for _, sp := range selfSpecs {
+		spec := &checkSpec{ID: "SELF", Pkg: sp.pkg, Dir: sp.dir, Files: sp.files}
+		overlay, err := buildOverlay(repoDir, verifDir, spec)
+		if err != nil {
+			fmt.Fprintln(os.Stderr, "SELFTEST-ERROR:", err)
+			return 2
+		}
+		if sp.dir == "nbhttp" {
+			lits, client := parserTestInputs()
+			if len(lits) < 9 {
+				fmt.Fprintf(os.Stderr, "SELFTEST-ERROR: only %d inputs found in parser_test.go\n", len(lits))
+				return 2
+			}
+			var sb strings.Builder
+			sb.WriteString("package nbhttp\n\nvar verifSelfParserInputs = []string{\n")
+			for _, l := range lits {
+				sb.WriteString("\t" + l + ",\n")
+			}
+			sb.WriteString("}\n\nvar verifSelfParserClient = []bool{")
+			for _, c := range client {
+				sb.WriteString(fmt.Sprintf("%v, ", c))
+			}
+			sb.WriteString("}\n")
+			overlay[filepath.Join(repoDir, sp.dir, "zz_verif_self_inputs.go")] = []byte(sb.String())
+		}
+		w, err := loadWorld(repoDir, overlay, spec, cfg)
+		if err != nil {
+			fmt.Fprintln(os.Stderr, "SELFTEST-ERROR:", err)
+			return 2
+		}
+		var fns []*ssa.Function
+		for name, mem := range w.mainPkg.Members {
+			if fn, ok := mem.(*ssa.Function); ok && strings.HasPrefix(name, "verifSelf_") {
+				fns = append(fns, fn)
+			}
+		}
+		sort.Slice(fns, func(i, j int) bool { return fns[i].Name() < fns[j].Name() })
+		m, err := w.getMachine(0)
+		if err != nil {
+			fmt.Fprintln(os.Stderr, "SELFTEST-ERROR:", err)
+			return 2
+		}
+		m.res = newResults()
+		w.q = newQueue()
+		interp := map[string]string{}
+		for _, fn := range fns {
+			kind, msg := m.runPath(fn, workItem{})
+			if kind != endDone {
+				fmt.Fprintf(os.Stderr, "SELFTEST-FAIL %s: interpreter ended with %s: %s\n", fn.Name(), kind, msg)
+				bad++
+				continue
+			}
+			s, ok := m.lastRet.(string)
+			if !ok {
+				fmt.Fprintf(os.Stderr, "SELFTEST-FAIL %s: non-concrete result %T\n", fn.Name(), m.lastRet)
+				bad++
+				continue
+			}
+			interp[fn.Name()] = s
+		}
+		w.closeMachines()
+		// native run
+		pname, _ := packageNameOf(filepath.Join(repoDir, sp.dir))
+		var tb strings.Builder
+		tb.WriteString("package " + pname + "\n\nimport (\n\t\"fmt\"\n\t\"testing\"\n)\n\nfunc TestVerifSelf(t *testing.T) {\n")
+		for _, fn := range fns {
+			tb.WriteString(fmt.Sprintf("\tfmt.Printf(\"SELF %s %%q\\n\", %s())\n", fn.Name(), fn.Name()))
+		}
+		if sp.dir == "nbhttp" {
+			tb.WriteString("\tverifSelfC07Native()\n")
+		}
+		tb.WriteString("}\n")
+		repl := map[string]string{}
+		i := 0
+		for virt, content := range overlay {
+			real := filepath.Join(work, fmt.Sprintf("%s_%d_%s", pname, i, filepath.Base(virt)))
+			i++
+			os.WriteFile(real, content, 0o644)
+			repl[virt] = real
+		}
+		if ents, err := os.ReadDir(filepath.Join(repoDir, sp.dir)); err == nil {
+			for _, e := range ents {
+				if strings.HasSuffix(e.Name(), "_test.go") {
+					repl[filepath.Join(repoDir, sp.dir, e.Name())] = ""
+				}
+			}
+		}
+		tpath := filepath.Join(work, pname+"_zz_verif_self_test.go")
+		os.WriteFile(tpath, []byte(tb.String()), 0o644)
+		repl[filepath.Join(repoDir, sp.dir, "zz_verif_self_test.go")] = tpath
+		ob, _ := json.Marshal(map[string]interface{}{"Replace": repl})
+		ovp := filepath.Join(work, pname+"_overlay.json")
+		os.WriteFile(ovp, ob, 0o644)
+		cmd := exec.Command("go", "test", "-vet=off", "-v", "-count=1", "-timeout", "300s", "-run", "TestVerifSelf", "-overlay", ovp, ".")
+		cmd.Dir = filepath.Join(repoDir, sp.dir)
+		cmd.Env = append(os.Environ(), "GOFLAGS=-mod=mod", "GOPROXY=off", "GOSUMDB=off", "GOTOOLCHAIN=local", "VERIF_RANDOM=1")
+		out, _ := cmd.CombinedOutput()
+		native := map[string]string{}
+		for _, line := range strings.Split(string(out), "\n") {
+			if strings.HasPrefix(line, "SELF ") {
+				parts := strings.SplitN(line, " ", 3)
+				if len(parts) == 3 {
+					if s, err := strconv.Unquote(parts[2]); err == nil {
+						native[parts[1]] = s
+					}
+				}
+			}
+			if strings.HasPrefix(line, "SELF-C07 ") {
+				fmt.Println("selftest:", line)
+				if !strings.Contains(line, "failures=0 ") {
+					bad++
+				}
+				total++
+			}
+		}
+		for _, fn := range fns {
+			total++
+			is, ok1 := interp[fn.Name()]
+			ns, ok2 := native[fn.Name()]
+			switch {
+			case !ok2:
+				fmt.Fprintf(os.Stderr, "SELFTEST-FAIL %s: no native result\n%s\n", fn.Name(), tailStr(string(out), 1500))
+				bad++
+			case ok1 && is == ns:
+				fmt.Printf("selftest: %-40s ok (%d bytes identical under gosym and natively)\n", fn.Name(), len(is))
+			case ok1:
+				fmt.Fprintf(os.Stderr, "SELFTEST-FAIL %s: results differ\n  gosym : %q\n  native: %q\n", fn.Name(), trunc(is, 400), trunc(ns, 400))
+				bad++
+			}
+		}
+	}
+	fmt.Printf("selftest: %d programs, %d failed, %.1fs\n", total, bad, time.Since(t0).Seconds())
+	if bad > 0 {
+		return 2
+	}
 	return 0
+}
+
+func trunc(s string, n int) string {
+	if len(s) > n {
+		return s[:n] + "…"
+	}
+	return s
+}
+
+func tailStr(s string, n int) string {
+	if len(s) > n {
+		return s[len(s)-n:]
+	}
+	return s
 }
 
 var vkFuncRe = regexp.MustCompile(`(?m)^func (vk_[A-Za-z0-9_]+)\(`)
